@@ -55,8 +55,13 @@ Inductive xr := XOk (s : cst) | XReturn (s : cst) | XRaise (s : cst).
 Definition send_error (e : denv) (r : Z) (s : cst) : cst :=
   match get_state (d_unsafe e) (d_exc e) with
   | Ok fs => with_sent s (MError r fs)
-  | Exc _ => dropped s          (* FailureSlicer raising inside produce: not a Violation *)
+  | Exc _ => dropped s          (* FailureSlicer raising inside produce (reflect.qual of a class without a module name): not a
+                                   Violation -> sendFailed, the connection is dropped *)
   end.
+
+(* the `copyable` state an ErrorSlicer for this delivery carries (when FailureSlicer returns: exactly for nameable classes) *)
+Definition the_state (e : denv) : fstate :=
+  match get_state (d_unsafe e) (d_exc e) with Ok fs => fs | Exc _ => {| s_type := []; s_value := []; s_traceback := []; s_parents := [] |} end.
 
 Fixpoint run_c (e : denv) (hasd : bool) (r : Z) (st : cstmt) (s : cst) {struct st} : xr :=
   let block := fix go (l : list cstmt) (s : cst) {struct l} : xr :=
@@ -188,6 +193,29 @@ Definition cinit0 : cst := {| active := []; sent := []; cup := true; swallowed :
 
 (* messages that concern request r *)
 Definition replies (r : Z) (l : list msg) : nat := List.length (filter (fun m => msg_req m =? r) l).
+
+(* ---- the specification side: WHICH reply a call must get, and when the model keeps the connection *)
+(* a delivery that doNextCall starts must be answered with an `error` exactly when its arguments did not become ready, the method
+   (or checkAllArgs, or the lookup of the method) raised, or the callee's schema rejects the result; otherwise with an `answer` *)
+Definition must_fail (e : denv) : bool := negb (d_ready e) || d_raises e || (d_schema e && negb (d_result_ok e)).
+
+(* the exact guard of one delivery (delivery_guard_exact: the connection survives it IF AND ONLY IF this holds): the message that
+   must be written can be serialized without a non-Violation exception -- the `error` needs a class FailureSlicer can name, the
+   `answer` an AnswerSlicer that does not crash *)
+Definition delivery_ok (e : denv) : Prop := if must_fail e then nameable (d_exc e) = true else d_answer e <> SCrash.
+
+(* the same for a call rejected while it is received: an `error` is written unless it was the caller's ABORT.  (On the real callee
+   the failure handed to reportViolation is always a foolscap Violation, which is nameable.) *)
+Definition rejected_ok (abort : bool) (e : denv) : Prop := abort = false -> nameable (d_exc e) = true.
+
+Definition reply_of (i : inbound) : list msg :=
+  match i with
+  | InRejected abort e => if abort || (d_reqid e =? 0) then [] else [MError (d_reqid e) (the_state e)]
+  | InDelivered e =>
+    if d_reqid e =? 0 then [] else
+    [if must_fail e then MError (d_reqid e) (the_state e)
+     else match d_answer e with SViolation => MAnswerAborted (d_reqid e) | _ => MAnswer (d_reqid e) end]
+  end.
 
 (* what the property promises for one inbound call *)
 Definition expected_replies (i : inbound) : nat :=
